@@ -208,12 +208,13 @@ pub fn execute(sc: &Scenario) -> Outcome {
     let mut fired_kinds: std::collections::BTreeSet<String> = Default::default();
     let mut arms: std::collections::BTreeSet<&'static str> = Default::default();
     let t_start = std::time::Instant::now();
-    for sw in &sc.switch_sets {
-        if t_start.elapsed().as_secs() >= 6 {
+    let (plan_sw, plan_hs) = crate::exec::plan(sc);
+    for sw in &plan_sw {
+        if t_start.elapsed().as_secs() >= crate::exec::BACKSTOP_S {
             stats.inc("heavy_scenarios_cut_short");
             break;
         }
-        for h in &sc.hash_seeds {
+        for h in &plan_hs {
             let r = if *sw == 0 {
                 (*rule).clone()
             } else {
